@@ -60,7 +60,10 @@ func Merge[T any](out chan<- T, in ...<-chan T) {
 		}
 		chosen, item, ok := reflect.Select(selectCases)
 		if ok {
-			out <- item.Interface().(T)
+			// Comma-ok: for an interface type T a nil value comes back as a nil interface{}, which
+			// a plain assertion to T refuses.
+			x, _ := item.Interface().(T)
+			out <- x
 		} else {
 			selectCases = xslices.RemoveUnordered(selectCases, chosen, 1)
 		}
